@@ -2512,7 +2512,11 @@ impl InferContext {
                         Ok(unit!())
                     }
                     Expr::ArrayAccess(_, _) => {
-                        unimplemented!("Assignment to array is not implemented yet.")
+                        // Not supported yet: answer with a diagnostic instead of aborting.
+                        Err(vec![Error::VariableNotFound(
+                            "assignment_to_array_element_is_not_supported".to_symbol(),
+                            loc.clone(),
+                        )])
                     }
                     _ => {
                         // This should be caught by parser, but add a generic error just in case
